@@ -60,22 +60,24 @@ func fatalf(format string, a ...any) {
 
 // Ctx is the loaded, type-checked, SSA-built repository plus the obligations collected so far.
 type Ctx struct {
-	alias    map[*ssa.Function]string // renamed function -> its recorded (reference-tree) name
-	byAlias  map[string]*ssa.Function
-	hpats    []helperPat
-	hpatBusy bool
-	repo     string
-	fset     *token.FileSet
-	ppkg     *packages.Package
-	tpkg     *types.Package
-	info     *types.Info
-	prog     *ssa.Program
-	spkg     *ssa.Package
-	all      []*packages.Package
-	tier     string
-	goos     string
-	arch     string
-	decls    map[string]*ast.FuncDecl // "Name" or "(T).Name"
+	recorded  map[string]bool // names in anchors.json (reference tree)
+	freshMemo map[*ssa.Function]bool
+	alias     map[*ssa.Function]string // renamed function -> its recorded (reference-tree) name
+	byAlias   map[string]*ssa.Function
+	hpats     []helperPat
+	hpatBusy  bool
+	repo      string
+	fset      *token.FileSet
+	ppkg      *packages.Package
+	tpkg      *types.Package
+	info      *types.Info
+	prog      *ssa.Program
+	spkg      *ssa.Package
+	all       []*packages.Package
+	tier      string
+	goos      string
+	arch      string
+	decls     map[string]*ast.FuncDecl // "Name" or "(T).Name"
 
 	cgCHA *callgraph.Graph
 	cgVTA *callgraph.Graph
